@@ -142,7 +142,11 @@ func derefPtr(t reflect.Type, v reflect.Value) (reflect.Type, reflect.Value, ref
 	for {
 		if isPtr(t) {
 			t = t.Elem()
-			v = v.Elem()
+			if v.IsValid() {
+				// a nil pointer yields the zero
+				// (invalid) Value; go no further
+				v = v.Elem()
+			}
 			continue
 		}
 		break
